@@ -427,7 +427,7 @@ def targets_for(tree, rng=None, full=True):
         out += [f"{base.lower()}:1", f"{base.upper()}:1", t.swapcase(), f"{base}:01", f"{base}:", f"{base}:x", f"{base}: 1",
                 f"{base}:-1", f"{base}:1_0", base]
     out += ["urn:a:device:Nope:1", "urn:nowhere:service:Z:1", "uuid:nobody", "uuid:", "", "ssdp:al", "ssdp:alll", ":1",
-            "upnp:rootdevice ", "x", "urn:a:device:É:1", "Ж"]
+            "upnp:rootdevice ", "x", "urn:a:device:Root", "ssdp:all:1", "upnp:rootdevice:1"]
     out = list(dict.fromkeys(out))
     if not full and rng is not None:
         k = min(len(out), 14)
@@ -490,6 +490,8 @@ def gen_history(rng, domain=True, long_run=False):
             st = rng.choice(tg) if rng.random() < 0.85 else recase(rng, rng.choice(tg))
             if rng.random() < 0.03:
                 st = None
+            if not domain and rng.random() < 0.1:
+                st = rng.choice(["urn:a:device:É:1", "Ж", "SSDP:ÄLL", "uuid:émb"])
             a = aid
             aid += 1
             if not domain and rng.random() < 0.15 and aid > 2:
